@@ -35,6 +35,39 @@ def mutation_sets(keys, wd):
     return out, states, trans
 
 
+_expected_cache = {}
+
+
+def expected_classes(sc):
+    """Verifier.tla: for the shape of this scenario's proofs, the error classes with which a proof whose component was changed
+    may be rejected (component -> set of VerifierError classes); also checks the design invariants of the model"""
+    sh = sc["shape"]
+    key = (1 if sh.get("aux_degs") else 0, 1 if sh.get("lagrange") else 0, sc["layers"], 1 if sc["opts"]["grind"] > 0 else 0)
+    if key not in _expected_cache:
+        env = {"VER_AUX": key[0], "VER_LAG": key[1], "VER_LAYERS": key[2], "VER_GRIND": key[3], "VER_CQM": 1}
+        r = vlib.run_tlc("MC_Verifier", "MC_Verifier", workers=1, env=env, tag="MC_Verifier_%d_%d_%d_%d" % key)
+        if not r.ok:
+            raise vlib.ToolError("Verifier.tla: %s violated for %s" % (r.violation, env))
+        _expected_cache[key] = ({p["component"]: set(p["expected"]) for p in r.printed if "component" in p}, r.distinct, r.generated)
+    return _expected_cache[key]
+
+
+def component_of(field, m):
+    """the component of Verifier.tla that a structured mutation of Wire.tla changes"""
+    if field == "commitments":
+        return "remcommit" if m in ("flip-last-bit", "dup-last-chunk") else "troot"
+    if field.startswith("tq"):
+        return ("tq." if field.startswith("tq1") else "aq.") + field.split(".")[1]
+    if field.startswith("fl") and field[2].isdigit():
+        return field
+    return {"cq.values": "cq.values", "cq.paths": "cq.paths", "ood.trace": "oodtrace", "ood.lagrange": "oodlag", "ood.evaluations": "oodevals",
+            "fri.remainder": "remainder", "pow_nonce": "nonce", "gkr.body": "gkr", "modulus": "modulus", "fri.partitions": "fl1.values"}.get(field, "ctx")
+
+
+# rejections that do not come from a check of the protocol but from decoding the proof or instantiating the statement
+DECODING = {"parse-error", "ProofDeserializationError", "UnsupportedFieldExtension", "InsufficientConjecturedSecurity"}
+
+
 def run_mutations(pid, tier, seed, exe, wd):
     """returns (observations per scenario, scenarios, model stats)"""
     r, stmts = c01.gen(5 if tier == "quick" else 6, 1)
@@ -111,6 +144,19 @@ def run(tier, seed, pid="C03"):
         if "grammar" in o:
             v.violation("wire/grammar", "a serialized proof does not follow the grammar of Wire.tla (%s)" % ctx, sc)
             continue
+        # which check rejects: the error class of every rejected structured mutant against the check order of Verifier.tla
+        if pid == "C03":
+            exp, _, _ = expected_classes(sc)
+            for m in o.get("structured_classes", []):
+                comp = component_of(m["field"], m["m"])
+                allowed = exp.get(comp, set()) | DECODING
+                if m["field"] == "fri.partitions":
+                    allowed = allowed | set().union(*[x for k, x in exp.items() if k.startswith("fl")])
+                if m["class"] not in allowed:
+                    v.violation("integrity/wrong-check/%s" % m["field"].rstrip("0123456789"),
+                                "a proof whose component %s was changed (%s:%s) is rejected by '%s', but the check that ties this component to "
+                                "its commitment / to the transcript is %s (Verifier.tla) (%s)" % (comp, m["field"], m["m"], m["class"], sorted(exp.get(comp, [])), ctx),
+                                {"scenario": sc, "mutation": "%s:%s" % (m["field"], m["m"])})
         for f in o["findings"]:
             mut, out = f["mutation"], f["outcome"]
             where = mut.split(" in ")[-1] if mut.startswith(("bit", "byte")) else mut
